@@ -75,6 +75,9 @@ def compare(case, om, oi):
         return None if oi.startswith("init:") else "model=%s impl=%s" % (om, oi)
     w = case.split(" ")
     m = om.split(" ")
+    for tok in oi.split(" "):
+        if tok.startswith("masks=") and tok != "masks=same":
+            return "the statistics depend on which other components are computed in the same pass: %s" % tok
     f = oi.split(" ")
     land = frac_of_bits(int(f[0][8:], 16))
     total_m = m[1][6:]
